@@ -443,7 +443,7 @@ pub fn scenarios(tier: &str) -> Vec<PyScenario> {
                             }
                             // a resolution set through the wrapper's set_longest_valid_segment_fraction
                             if let Spec::Rv { .. } | Spec::So2 { .. } | Spec::So3 { .. } = &v.spec {
-                                for fr in [0.2, 0.011] {
+                                for fr in [0.2, 0.011, 2.0, -1.0] {
                                     let mut x = base.clone();
                                     x.id = format!("{}/frac{fr}", base.id);
                                     match &mut x.spec {
@@ -625,6 +625,25 @@ fn distance_lattice_cases() -> Vec<Value> {
     out.push(distance_cases_for::<So2>("SO2", &Spec::So2 { bounds: Some((-3.0, 3.0)), frac: None }, &so2_canon));
     out.push(distance_cases_for::<So3>("SO3", &Spec::So3 { bounds: None, frac: None }, &so3_lattice(false)));
     out.push(distance_cases_for::<So3>("SO3", &Spec::So3 { bounds: Some(([0.0, 0.0, 0.0, 1.0], 1.0)), frac: None }, &so3_lattice(false)));
+    // unit quaternions whose squared norm rounds below 1: the core's d(q, q) is then 2 acos(1 - ulp) ~ 3e-8,
+    // not 0 - and the binding returns the core's value, whatever it is (equal states included)
+    {
+        use oxmpl::base::space::StateSpace;
+        let sp = So3::build(&Spec::So3 { bounds: None, frac: None });
+        let mut lat: Vec<V> = Vec::new();
+        let mut k = 1u32;
+        while lat.len() < 10 && k < 2000 {
+            let kf = k as f64;
+            let q = quat([kf.sin(), (1.7 * kf).cos(), 0.3 + (0.37 * kf).sin()], 7.0 + 11.0 * kf % 173.0);
+            let st = So3::from_v(&as_python_stores(&V::So3(q)));
+            if sp.distance(&st, &st) > 0.0 {
+                lat.push(V::So3(q));
+            }
+            k += 1;
+        }
+        lat.push(V::So3([0.0, 0.0, 0.0, 1.0]));
+        out.push(distance_cases_for::<So3>("SO3", &Spec::So3 { bounds: None, frac: None }, &lat));
+    }
     let cparts = vec![Spec::Rv { dim: 2, bounds: Some(vec![(-5.0, 5.0), (-5.0, 5.0)]), frac: None }, Spec::So2 { bounds: None, frac: None }];
     for w in [vec![1.0, 0.5], vec![0.0, 2.0], vec![1e-3, 1e3]] {
         out.push(distance_cases_for::<Cmp>("Compound", &Spec::Cmp { parts: cparts.clone(), weights: w }, &compound_lattice(&cparts)));
